@@ -312,6 +312,32 @@ func peerRun() (res peerResult) {
 						fail("C10:http-push-copy-differs|"+cfg, fmt.Sprintf("%s: the remote dataset lacks %s of the source (remote %v)", cfg, l, rem))
 					}
 				}
+				// the same job object runs again after the hub has learned a namespace it did not know during the first run
+				if b == 2 {
+					doc := fmt.Sprintf(`[{"id":"@context","namespaces":{"_":"http://peer/later-%d/"}},{"id":"y1","props":{"k":1},"refs":{"r":"y2"}}]`, n)
+					if code, body, pn := p.local.request(http.MethodPost, "/datasets/"+lds+"/entities", doc); code != 200 || pn != "" {
+						res.Err = fmt.Sprintf("second load: %d %s %s", code, short(string(body)), pn)
+						return
+					}
+					if pn := run(id); pn != "" {
+						fail("C11:run-crashes-hub|"+cfg, cfg+": the second run panics: "+pn)
+						continue
+					}
+					if le, ok := p.lastError(id); !ok || le != "" {
+						fail("C10:http-second-run-fails|"+cfg, fmt.Sprintf("%s: the second run, after the source received an entity in a namespace that is new to the hub, did not succeed: %q", cfg, le))
+						continue
+					}
+					want := fmt.Sprintf("http://peer/later-%d/y1", n)
+					found := false
+					for _, l := range peerView(p.remote, rds) {
+						if strings.Contains(l, want) {
+							found = true
+						}
+					}
+					if !found {
+						fail("C10:http-push-copy-differs|"+cfg, fmt.Sprintf("%s: after the second run the remote dataset lacks %s", cfg, want))
+					}
+				}
 			}
 		}
 	}
